@@ -322,11 +322,14 @@ pub struct Outcome {
 pub const SCENARIOS: &[&str] = &[
     "ids-3x2",
     "ids-2x3-mixed",
+    "ids-1x70",
+    "ids-2x36",
     "dl-3x2",
     "dl-2x3-mixed",
     "ring2",
     "ring3",
     "ring2-plus-bystander",
+    "failing-ask-vs-ask",
     "ask-vs-kill",
     "ask-vs-stop",
     "ask-vs-drop",
@@ -340,7 +343,8 @@ pub fn scenarios_for(prop: &str) -> Vec<&'static str> {
         .filter(|s| match prop {
             "C11" => s.starts_with("ids"),
             "C13" => s.starts_with("dl") && cfg!(feature = "f_testutils"),
-            "C14" | "C15" => s.starts_with("ring") && cfg!(feature = "f_deadlock"),
+            "C14" => s.starts_with("ring") && cfg!(feature = "f_deadlock"),
+            "C15" => (s.starts_with("ring") || s.starts_with("failing-ask")) && cfg!(feature = "f_deadlock"),
             "C03" => s.starts_with("ask-vs") && cfg!(feature = "f_tracing"),
             "C01" => (s.starts_with("ask-vs") || s.starts_with("tell-vs")) && cfg!(feature = "f_tracing"),
             _ => true,
@@ -355,16 +359,23 @@ fn idle_rt() -> tokio::runtime::Runtime {
 /// Run one execution of `scenario` under `prefix`.
 pub fn run_scenario(scenario: &str, prefix: &[u8]) -> (Exec, Outcome) {
     match scenario {
-        "ids-3x2" | "ids-2x3-mixed" => run_ids(scenario, prefix),
+        "ids-3x2" | "ids-2x3-mixed" | "ids-1x70" | "ids-2x36" => run_ids(scenario, prefix),
         "dl-3x2" | "dl-2x3-mixed" => run_dl(scenario, prefix),
         "ring2" | "ring3" | "ring2-plus-bystander" => run_ring(scenario, prefix),
         "ask-vs-kill" | "ask-vs-stop" | "ask-vs-drop" | "tell-vs-stop" => run_send_vs_end(scenario, prefix),
+        "failing-ask-vs-ask" => run_failing_ask(prefix),
         other => panic!("unknown tsched scenario {other}"),
     }
 }
 
 fn run_ids(scenario: &str, prefix: &[u8]) -> (Exec, Outcome) {
-    let (threads, per, mixed) = if scenario == "ids-3x2" { (3, 2, false) } else { (2, 3, true) };
+    let (threads, per, mixed) = match scenario {
+        "ids-3x2" => (3, 2, false),
+        "ids-2x3-mixed" => (2, 3, true),
+        // long runs of one thread (more than two default mailboxes' worth of spawns), alone and next to another
+        "ids-1x70" => (1, 70, true),
+        _ => (2, 36, true),
+    };
     let ids: Arc<Mutex<Vec<(usize, u64)>>> = Arc::new(Mutex::new(Vec::new()));
     let mut bodies: Vec<Box<dyn FnOnce() + Send>> = Vec::new();
     let mut rts = Vec::new();
@@ -386,7 +397,16 @@ fn run_ids(scenario: &str, prefix: &[u8]) -> (Exec, Outcome) {
     let mut all: Vec<u64> = got.iter().map(|x| x.1).collect();
     all.sort_unstable();
     if all.windows(2).any(|w| w[0] == w[1]) {
-        v.push(("C11 ids unique however concurrently spawned".to_string(), format!("(thread, id) in allocation order: {got:?}")));
+        let dups: Vec<String> = all
+            .windows(2)
+            .filter(|w| w[0] == w[1])
+            .map(|w| {
+                let who: Vec<String> = got.iter().enumerate().filter(|(_, x)| x.1 == w[0]).map(|(k, x)| format!("spawn #{k} (thread {})", x.0)).collect();
+                format!("id {} handed to {}", w[0], who.join(" and "))
+            })
+            .collect();
+        let shown = if got.len() > 12 { format!("{} spawns", got.len()) } else { format!("(thread, id) in allocation order: {got:?}") };
+        v.push(("C11 ids unique however concurrently spawned".to_string(), format!("{}; {shown}", dups.join("; "))));
     }
     if ex.error.is_none() && got.len() != threads * per {
         v.push(("C11 machinery".to_string(), format!("{} of {} spawns happened", got.len(), threads * per)));
@@ -394,7 +414,8 @@ fn run_ids(scenario: &str, prefix: &[u8]) -> (Exec, Outcome) {
     let base = all.first().copied().unwrap_or(0);
     let rel: Vec<(usize, u64)> = got.iter().map(|(t, i)| (*t, i - base)).collect();
     drop(rts);
-    (ex, Outcome { summary: format!("{rel:?}"), violations: v })
+    let summary = if rel.len() > 12 { format!("{} ids, thread order {:?}", rel.len(), rel.iter().map(|x| x.0).collect::<Vec<_>>()) } else { format!("{rel:?}") };
+    (ex, Outcome { summary, violations: v })
 }
 
 #[cfg(feature = "f_testutils")]
@@ -565,6 +586,82 @@ fn run_ring(scenario: &str, prefix: &[u8]) -> (Exec, Outcome) {
         }
     }
     (ex, Outcome { summary: format!("victims={victims:?} log={l:?}"), violations: v })
+}
+
+/// Two unrelated asks on two threads: X asks Y (answered), V asks an actor that has already ended (fails at once).
+/// Whatever the interleaving of their graph operations - tracing events (the dead-letter record of the failing ask)
+/// are scheduling points too - both edges are gone once both asks have finished.
+fn run_failing_ask(prefix: &[u8]) -> (Exec, Outcome) {
+    use futures::FutureExt;
+    let log: Arc<Mutex<Vec<String>>> = Arc::new(Mutex::new(Vec::new()));
+    let rt_a = Arc::new(idle_rt());
+    let rt_b = Arc::new(idle_rt());
+    let spawn_on = |rt: &tokio::runtime::Runtime, i: usize| {
+        let _g = rt.enter();
+        rsactor::spawn::<Node>((i, log.clone()))
+    };
+    let (x, _jx) = spawn_on(&rt_a, 0);
+    let (y, _jy) = spawn_on(&rt_a, 1);
+    let (v, _jv) = spawn_on(&rt_b, 2);
+    let (d, mut jd) = spawn_on(&rt_b, 3);
+    let tick = |rt: &tokio::runtime::Runtime, n: usize| {
+        rt.block_on(async {
+            for _ in 0..n {
+                tokio::task::yield_now().await;
+            }
+        })
+    };
+    tick(&rt_b, 4);
+    d.stop().now_or_never().expect("free mailbox").unwrap();
+    tick(&rt_b, 6);
+    let d_ended = rt_b.block_on(async { (&mut jd).now_or_never() }).is_some();
+    x.tell(SetNext(y.clone())).now_or_never().expect("free mailbox").unwrap();
+    v.tell(SetNext(d.clone())).now_or_never().expect("free mailbox").unwrap();
+    x.tell(Go).now_or_never().expect("free mailbox").unwrap();
+    v.tell(Go).now_or_never().expect("free mailbox").unwrap();
+    let mut bodies: Vec<Box<dyn FnOnce() + Send>> = Vec::new();
+    for rt in [rt_a.clone(), rt_b.clone()] {
+        bodies.push(Box::new(move || {
+            rt.block_on(async {
+                for _ in 0..12 {
+                    tokio::task::yield_now().await;
+                }
+            });
+        }));
+    }
+    TRACE_POINTS.store(true, std::sync::atomic::Ordering::SeqCst);
+    let ex = run_threads(prefix, bodies);
+    TRACE_POINTS.store(false, std::sync::atomic::Ordering::SeqCst);
+    for _ in 0..4 {
+        tick(&rt_a, 12);
+        tick(&rt_b, 12);
+    }
+    let l = log.lock().unwrap().clone();
+    let mut v_out = Vec::new();
+    if ex.error.is_none() {
+        if !d_ended {
+            v_out.push(("C15 machinery".to_string(), "the actor that was to be dead had not ended".to_string()));
+        }
+        let done = l.iter().any(|e| e == "0:reply") && l.iter().any(|e| e == "2:error");
+        if !done {
+            v_out.push(("C15 machinery".to_string(), format!("expected X to be answered and V's ask to fail; log {l:?}")));
+        }
+        #[cfg(feature = "f_deadlock")]
+        {
+            let mine: Vec<u64> = [&x, &y, &v, &d].iter().map(|r| r.identity().id).collect();
+            let edges: Vec<(u64, u64)> = rsactor::verif::wait_for_edges().into_iter().filter(|(a, _)| mine.contains(a)).collect();
+            if done && !edges.is_empty() {
+                v_out.push(("C15 graph empty once every ask has finished".to_string(), format!("both asks have finished (log {l:?}), edges left: {edges:?} (ids: X {} Y {} V {} dead {})", mine[0], mine[1], mine[2], mine[3])));
+            }
+        }
+    }
+    drop((x, y, v, d));
+    for rt in [rt_a, rt_b] {
+        if let Ok(rt) = Arc::try_unwrap(rt) {
+            rt.shutdown_background();
+        }
+    }
+    (ex, Outcome { summary: format!("log={l:?}"), violations: v_out })
 }
 
 /// One thread sends (ask or tell) from its own runtime while another thread ends the actor (kill, stop, or the
@@ -753,6 +850,8 @@ pub struct Report {
 pub fn bound_for(scenario: &str, thorough: bool) -> Option<u32> {
     if scenario.starts_with("ask-vs") || scenario.starts_with("tell-vs") {
         Some(if thorough { 5 } else { 3 })
+    } else if scenario == "ids-2x36" {
+        Some(if thorough { 2 } else { 1 })
     } else {
         None
     }
